@@ -4,6 +4,7 @@ import (
 	"bytes"
 	"fmt"
 	"sort"
+	"strings"
 
 	"github.com/btcsuite/btcd/btcutil"
 	"github.com/btcsuite/btcd/chaincfg"
@@ -51,6 +52,44 @@ func mkTx(r *tr.Rng, outs []*wire.TxOut, nIn int) *btcTx {
 	_ = tx.SerializeNoWitness(&buf)
 	raw := buf.Bytes()
 	return &btcTx{raw: raw, txid: goatcrypto.DoubleSHA256Sum(raw), outs: outs}
+}
+
+// mkTxSized: like mkTx, with the first input's (legacy) signature script padded so that the no-witness serialisation
+// has exactly `target` bytes (the size limits of the message validation: 32 KiB)
+func mkTxSized(r *tr.Rng, outs []*wire.TxOut, nIn int, target int) *btcTx {
+	base := mkTx(r, outs, nIn)
+	deficit := target - len(base.raw)
+	if deficit <= 0 {
+		return base
+	}
+	pad := deficit // the script length prefix grows from 1 to 3 bytes at 253
+	if deficit >= 253+2 {
+		pad = deficit - 2
+	} else if deficit >= 253 {
+		return base
+	}
+	tx := wire.NewMsgTx(2)
+	if err := tx.DeserializeNoWitness(bytes.NewReader(base.raw)); err != nil {
+		return base
+	}
+	tx.TxIn[0].SignatureScript = r.Bytes(pad)
+	var buf bytes.Buffer
+	_ = tx.SerializeNoWitness(&buf)
+	raw := buf.Bytes()
+	return &btcTx{raw: raw, txid: goatcrypto.DoubleSHA256Sum(raw), outs: outs}
+}
+
+// sizeClass: now and then a transaction of exactly the largest admissible size, or one byte more
+func sizeClass(r *tr.Rng, tx *btcTx, nIn int, cls *string) *btcTx {
+	switch r.Intn(40) {
+	case 0:
+		*cls += "/size=max"
+		return mkTxSized(r, tx.outs, nIn, bitcointypes.MaxAllowedBtcTxSize)
+	case 1:
+		*cls += "/size=max+1"
+		return mkTxSized(r, tx.outs, nIn, bitcointypes.MaxAllowedBtcTxSize+1)
+	}
+	return tx
 }
 
 func mkBlock(r *tr.Rng, height uint64, txs []*btcTx) *btcBlock {
@@ -448,7 +487,17 @@ func (s *bitcoinStream) genDepositTxs(r *tr.Rng) {
 			continue
 		}
 		key := k
-		switch r.Intn(24) {
+		switch r.Intn(28) {
+		case 24, 25: // only the version / push opcode of the script is wrong (everything after it is right)
+			sc = append([]byte{}, sc...)
+			sc[r.Intn(2)] ^= 1 << uint(r.Intn(8))
+			cls += "/script-opcode-flipped"
+		case 26, 27: // only the OP_RETURN / push opcode of the version-1 data output is wrong
+			if version == 1 && len(data) > 2 {
+				data = append([]byte{}, data...)
+				data[r.Intn(2)] ^= 1 << uint(r.Intn(8))
+				cls += "/v1-data-opcode-flipped"
+			}
 		case 0: // one byte of the script flipped
 			sc = append([]byte{}, sc...)
 			sc[r.Intn(len(sc))] ^= 1 << uint(r.Intn(8))
@@ -507,7 +556,7 @@ func (s *bitcoinStream) genDepositTxs(r *tr.Rng) {
 				cls += "/two-deposit-outputs"
 			}
 		}
-		tx := mkTx(r, outs, nin)
+		tx := sizeClass(r, mkTx(r, outs, nin), nin, &cls)
 		var sib *depCand
 		if second >= 0 {
 			sib = &depCand{tx: tx, version: 0, outIdx: uint32(second), evm: evm2, key: key, cls: cls + "/second"}
@@ -564,6 +613,27 @@ func (s *bitcoinStream) genDeposits(r *tr.Rng) {
 			kind, key = k.Kind, k.Pub
 		}
 		return fmt.Sprintf("%d|%d|%d|%s|%d|%s|%s|%s|%s", version, block, txIndex, tr.Hex(raw), outIdx, tr.Hex(proof), tr.Hex(evm), kind, tr.Hex(key))
+	}
+	// the largest admissible batch (16 deposits) and one more, all of them fresh and well-formed
+	if r.Chance(5) {
+		var fresh []*depCand
+		for _, x := range depCands {
+			if !x.used && !strings.Contains(x.cls, "/") {
+				if b, _ := s.findTx(x.tx.txid); b != nil {
+					fresh = append(fresh, x)
+				}
+			}
+		}
+		if want := 16 + r.Intn(2); len(fresh) >= want {
+			for _, d := range fresh[:want] {
+				d.used = true
+				b, idx := s.findTx(d.tx.txid)
+				headers[b.height] = b.header
+				add(item(d.version, b.height, uint32(idx), d.tx.raw, d.outIdx, b.proof(idx), d.evm, d.key), d.cls)
+			}
+			cls = fmt.Sprintf("+batch-of-%d", want)
+			n = 0
+		}
 	}
 	for i := 0; i < n; i++ {
 		// coinbase deposits (maturity rule) or ordinary candidates
@@ -861,7 +931,11 @@ func (s *bitcoinStream) payout(r *tr.Rng, ids []uint64, cls *string) (*btcTx, ui
 				minPrice = w.price
 			}
 		}
-		switch r.Intn(30) {
+		outDefect := r.Intn(30)
+		if len(ids) > 8 {
+			outDefect = r.Intn(30 * len(ids)) // large payouts: at most about one defective output per transaction
+		}
+		switch outDefect {
 		case 0:
 			amt, *cls = amt+uint64(1+r.Intn(int(min64(w0amount(w), 10)+1))), *cls+"/over-amount"
 			if w != nil {
@@ -871,6 +945,10 @@ func (s *bitcoinStream) payout(r *tr.Rng, ids []uint64, cls *string) (*btcTx, ui
 			sc = append([]byte{}, sc...)
 			sc[len(sc)-1] ^= 1
 			*cls += "/wrong-script"
+		case 2: // only the version / push opcode of the user's script is wrong
+			sc = append([]byte{}, sc...)
+			sc[r.Intn(2)] ^= 1 << uint(r.Intn(8))
+			*cls += "/script-opcode-flipped"
 		}
 		outs = append(outs, wire.NewTxOut(int64(amt), sc))
 	}
@@ -878,6 +956,11 @@ func (s *bitcoinStream) payout(r *tr.Rng, ids []uint64, cls *string) (*btcTx, ui
 	case 0, 1, 2, 3: // change to the current key
 		outs = append(outs, wire.NewTxOut(int64(1000+r.Intn(100000)), s.sysScript(s.cur())))
 		*cls += "/change"
+	case 7: // change to the current key's program under a wrong version / push opcode
+		csc := append([]byte{}, s.sysScript(s.cur())...)
+		csc[r.Intn(2)] ^= 1 << uint(r.Intn(8))
+		outs = append(outs, wire.NewTxOut(int64(1000+r.Intn(100000)), csc))
+		*cls += "/change-opcode-flipped"
 	case 4:
 		if len(s.keys) > 1 {
 			outs = append(outs, wire.NewTxOut(1234, s.sysScript(s.keys[0])))
@@ -890,7 +973,8 @@ func (s *bitcoinStream) payout(r *tr.Rng, ids []uint64, cls *string) (*btcTx, ui
 		outs = append(outs, wire.NewTxOut(1, s.sysScript(s.cur())), wire.NewTxOut(1, s.sysScript(s.cur())))
 		*cls += "/two-extra-outputs"
 	}
-	tx := mkTx(r, outs, 1+r.Intn(2))
+	nIn := 1 + r.Intn(2)
+	tx := sizeClass(r, mkTx(r, outs, nIn), nIn, cls)
 	defectiveBytes(r, tx, cls)
 	if minPrice == 1<<62 {
 		minPrice = 1
@@ -976,6 +1060,21 @@ func (s *bitcoinStream) genProcess(r *tr.Rng) {
 	if r.Chance(10) { // burst: pay more withdrawals at once than one block hands over (cap 8)
 		n = 9 + r.Intn(8)
 		cls += "/burst"
+	}
+	if len(cands) >= 33 && r.Chance(40) { // the most withdrawals one transaction may pay (32), and one more
+		n = 32 + r.Intn(2)
+		cls += fmt.Sprintf("/ids=%d", n)
+	}
+	if n > 8 { // large payouts: only withdrawals that tolerate a fee at all (one zero maximum price would refuse the whole transaction)
+		var pos []uint64
+		for _, id := range cands {
+			if w := s.wds[id]; w != nil && w.price >= 2 && w.addr.script != nil {
+				pos = append(pos, id)
+			}
+		}
+		if len(pos) >= n {
+			cands = pos
+		}
 	}
 	for i := 0; i < n && len(cands) > 0; i++ {
 		j := r.Intn(len(cands))
@@ -1184,8 +1283,13 @@ func (s *bitcoinStream) genConsolidate(r *tr.Rng) {
 	case 2:
 		outs[0].PkScript = r.Bytes(22)
 		cls += "/to-stranger"
+	case 3:
+		outs[0].PkScript = append([]byte{}, outs[0].PkScript...)
+		outs[0].PkScript[r.Intn(2)] ^= 1 << uint(r.Intn(8))
+		cls += "/opcode-flipped"
 	}
-	tx := mkTx(r, outs, 2+r.Intn(3))
+	nIn := 1 + r.Intn(4) // one input and one output to an ECDSA key: the smallest transaction the validation admits
+	tx := sizeClass(r, mkTx(r, outs, nIn), nIn, &cls)
 	defectiveBytes(r, tx, &cls)
 	vcls, args := s.validVote(r, "Bitcoin/NewConsolidation", goatcrypto.SHA256Sum(tx.raw))
 	s.push(tr.NewOp(cls+vcls, "tx.consolidate", append(args, "tx", tr.Hex(tx.raw))...))
